@@ -78,35 +78,42 @@ def _collect_unique_dimension(
     syms: Iterable[tuple[Expr, Dimension]],
 ) -> Dimension:
     dim = None
+    # dimension to fall back to if all terms are zero, infinite or NaN
+    any_dim = None
 
     if not all(is_any_dimension(num) for num in nums):
         dim = dimensionless
 
     for qty in qtys:
-        if dim is None:
-            dim = qty.dimension
+        # such terms are compatible with any dimension and must not fix the dimension of the rest
+        if is_any_dimension(qty.scale_factor):
+            if any_dim is None:
+                any_dim = qty.dimension
             continue
 
-        if is_any_dimension(qty.scale_factor):
+        if dim is None:
+            dim = qty.dimension
             continue
 
         if not dimsys_SI.equivalent_dims(dim, qty.dimension):
             raise UnitsError(f"The dimension of {qty} is {qty.dimension}, expected {dim}")
 
     for sym_expr, sym_dim in syms:
-        if dim is None:
-            dim = sym_dim
+        if is_any_dimension(sym_expr):
+            if any_dim is None:
+                any_dim = sym_dim
             continue
 
-        if is_any_dimension(sym_expr):
+        if dim is None:
+            dim = sym_dim
             continue
 
         if not dimsys_SI.equivalent_dims(dim, sym_dim):
             raise UnitsError(f"The dimension of '{sym_expr}' is {sym_dim}, expected {dim}")
 
-    # edge case when both `qtys` and `syms` are empty and all `nums` are of any dimension
+    # edge case when all terms are of any dimension
     if dim is None:
-        dim = dimensionless
+        dim = dimensionless if any_dim is None else any_dim
 
     return dim
 
